@@ -20,6 +20,8 @@ import SigModel.Lemmas.C17
 import SigModel.Lemmas.C17e
 import SigModel.Model.OtsdbQuery
 import SigModel.Lemmas.C17f
+import SigModel.Model.QMux
+import SigModel.Lemmas.C17g
 
 namespace SigModel.Props.C17
 open SigModel.QTable
@@ -329,5 +331,94 @@ example : parseAggDs [115, 117, 109, 58, 49, 109, 45, 97, 118, 103, 58, 99, 112,
 
 example : ago [49, 53, 109, 45, 97, 103, 111] = .relOk ∧ ago [45, 97, 103, 111] = .relErr ∧ ago [49, 55, 48, 48, 48, 48, 48, 48, 48, 48] = .abs := by decide
 end Otsdb
+
+/-! ## "… exactly one terminal state, after which … no goroutine of it remains": the state multiplexer
+
+`RunQueryForNewPipeline` starts ONE multiplexer goroutine per query (pkg/ast/pipesearch/multiplexer,
+Model/QMux.lean, tied to the real goroutine by the suite `qmux`).  `ended` = the goroutine has returned;
+`Out.close` = `close(output)`, which the reader of the query's answer waits for. -/
+namespace Mux
+open SigModel.Model SigModel.Lemmas.C17g
+
+/-- the multiplexer goroutine ends with the first terminal message: for EVERY event sequence (with or without a
+timechart channel) that holds a CANCELLED, TIMEOUT or ERROR message on a channel that exists, the goroutine has
+returned at the end of the sequence, it has closed its output EXACTLY once, and the close is its LAST output — nothing
+is sent after it (whatever follows the terminal message, e.g. the CANCELLED that follows a TIMEOUT, is not read). -/
+theorem multiplexer_terminates_after_terminal_state (tcPresent : Bool) (evs : List QMux.Ev)
+    (h : ∃ e ∈ evs, (e.msg = .cancelled ∨ e.msg = .timeout ∨ e.msg = .error) ∧ (e.tc = true → tcPresent = true)) :
+    (QMux.run tcPresent evs).1.ended = true ∧
+    ((QMux.run tcPresent evs).2.filter QMux.Out.isClose).length = 1 ∧
+    (QMux.run tcPresent evs).2.getLast? = some QMux.Out.close := by
+  have hg := good_runFrom evs (QMux.init tcPresent) [] (good_init tcPresent)
+  have he : (QMux.run tcPresent evs).1.ended = true := by
+    apply runFrom_abort
+    obtain ⟨e, hm, ha, hd⟩ := h
+    refine ⟨e, hm, ?_, ?_⟩
+    · rcases ha with ha | ha | ha <;> rw [ha] <;> rfl
+    · cases htc : e.tc
+      · simp [QMux.deliverable, htc]
+      · simp [QMux.deliverable, htc, QMux.init, hd htc]
+  refine ⟨he, ?_, hg.last he⟩
+  have := hg.count
+  rw [show (QMux.runFrom (QMux.init tcPresent) [] evs) = QMux.run tcPresent evs from rfl, he] at this
+  simpa [closes] using this
+
+/-- … the same holds when an input channel is closed before its COMPLETE (one step, any running goroutine) … -/
+theorem multiplexer_ends_on_unexpected_close (s : QMux.St) (tc : Bool) (hd : tc = true → s.tcPresent = true)
+    (hi : QMux.isDone s tc = false) : (QMux.step s ⟨tc, .closed⟩).1.ended = true := by
+  apply step_closed_incomplete _ _ _ rfl hi
+  cases tc
+  · simp [QMux.deliverable]
+  · simp [QMux.deliverable, hd rfl]
+
+/-- … and when every channel has delivered its COMPLETE: in EVERY reachable state, all channels complete implies
+that the goroutine has returned. -/
+theorem multiplexer_ends_when_all_complete (tcPresent : Bool) (evs : List QMux.Ev)
+    (h : (QMux.run tcPresent evs).1.mainDone = true ∧ (QMux.run tcPresent evs).1.tcDone = true) :
+    (QMux.run tcPresent evs).1.ended = true := by
+  have hg := good_runFrom evs (QMux.init tcPresent) [] (good_init tcPresent)
+  apply hg.done
+  simp only [QMux.allDone, QMux.run, Bool.and_eq_true] at h ⊢
+  exact h
+
+/-- for EVERY event sequence the output is closed at most once (a second `close` would panic), exactly once iff the
+goroutine has returned, then as the last output; and the goroutine has returned iff `closedOutput` is set. -/
+theorem multiplexer_closes_at_most_once (tcPresent : Bool) (evs : List QMux.Ev) :
+    ((QMux.run tcPresent evs).2.filter QMux.Out.isClose).length ≤ 1 ∧
+    (((QMux.run tcPresent evs).2.filter QMux.Out.isClose).length = 1 ↔ (QMux.run tcPresent evs).1.ended = true) ∧
+    ((QMux.run tcPresent evs).1.ended = true → (QMux.run tcPresent evs).2.getLast? = some QMux.Out.close) ∧
+    (QMux.run tcPresent evs).1.ended = (QMux.run tcPresent evs).1.closedOutput := by
+  have hg := good_runFrom evs (QMux.init tcPresent) [] (good_init tcPresent)
+  have hc := hg.count
+  rw [show (QMux.runFrom (QMux.init tcPresent) [] evs) = QMux.run tcPresent evs from rfl] at hc hg
+  simp only [closes] at hc
+  refine ⟨?_, ?_, hg.last, hg.sync⟩
+  · rw [hc]; split <;> simp
+  · rw [hc]; cases (QMux.run tcPresent evs).1.ended <;> simp
+
+/-- non-vacuity: a synchronous query that times out — TIMEOUT is forwarded, the output closed, the goroutine gone;
+the CANCELLED that `CancelQuery` sends next is not read (1 of 2 events consumed) -/
+example : QMux.run false [⟨false, .ready⟩, ⟨false, .timeout⟩, ⟨false, .cancelled⟩] =
+      ({ tcPresent := false, mainDone := false, tcDone := true, closedOutput := true, ended := true },
+       [.env "READY" false "", .env "TIMEOUT" false "", .close]) ∧
+    QMux.readFrom (QMux.init false) [⟨false, .ready⟩, ⟨false, .timeout⟩, ⟨false, .cancelled⟩] = 2 := by
+  constructor <;> rfl
+
+/-- non-vacuity: with a timechart channel the two COMPLETEs are merged into one, then the output is closed by the
+deferred function; a non-websocket COMPLETE with a timechart channel is answered with an ERROR -/
+example : (QMux.run true [⟨false, .completeWs⟩, ⟨true, .update⟩, ⟨true, .completeWs⟩]).2 =
+      [.env "QUERY_UPDATE" true "", .env "COMPLETE" false "m", .close] ∧
+    (QMux.run true [⟨false, .completeHttp⟩]).2 = [.env "ERROR" false "x", .close] ∧
+    (QMux.run false [⟨false, .completeHttp⟩]).2 = [.env "COMPLETE" false "h", .close] := by
+  refine ⟨?_, ?_, ?_⟩ <;> rfl
+
+/-- the statement is not a tautology of the model's shape: in the variant in which TIMEOUT is forwarded WITHOUT closing
+the output (waiting for the CANCELLED that follows; `stepNoCloseOnTimeout`, Lemmas/C17g.lean) the goroutine of a query
+whose last message is TIMEOUT never ends and its output is never closed -/
+theorem no_close_on_timeout_variant_violates :
+    (runFromNoCloseOnTimeout (QMux.init false) [] [⟨false, .ready⟩, ⟨false, .timeout⟩]).1.ended = false ∧
+    ((runFromNoCloseOnTimeout (QMux.init false) [] [⟨false, .ready⟩, ⟨false, .timeout⟩]).2.filter QMux.Out.isClose).length = 0 := by
+  constructor <;> rfl
+end Mux
 
 end SigModel.Props.C17
